@@ -182,8 +182,75 @@ def r09_2(chk):
     chk.floor("R09.2", 10, "9 structural characters + 4 protocol obligations")
 
 
+def _kw_or_default(call, fn, name):
+    """effective value (as source text) of keyword `name` at a call of fn"""
+    from ..index import param_defaults
+
+    for kw in call.keywords:
+        if kw.arg == name:
+            return norm(kw.value)
+    ps = [p for p in params_of(fn) if p not in ("self", "cls")]
+    if name in ps and ps.index(name) < len(call.args):
+        return norm(call.args[ps.index(name)])
+    d = param_defaults(fn).get(name)
+    return norm(d) if d is not None else None
+
+
+def r09_4(chk):
+    chk.rule("R09.4", "JSON tree protocol: the newick written by to_rich_dict is read back by deserialise_tree with the matching convention -- blanks are munged to underscores by the writer (escape_name) exactly when the reader un-munges them (underscore_unmunge); and the writer quotes names containing newick punctuation")
+    tm = chk.repo.module(TREE)
+    w = tm.func("TreeNode.to_rich_dict")
+    gn = tm.func("TreeNode.get_newick")
+    wc = [c for c in walk_no_nested(w) if isinstance(c, ast.Call) and norm(c.func) == "self.get_newick"]
+    dm = chk.repo.module("util/deserialise.py")
+    r = dm.func("deserialise_tree")
+    rc = [c for c in walk_no_nested(r) if isinstance(c, ast.Call) and (call_name(c) or "").endswith("make_tree")]
+    im = chk.repo.module("__init__.py")
+    mt = im.func("make_tree")
+    if not wc or not rc:
+        raise AnalysisError("tree JSON writer/reader calls not found")
+    esc = _kw_or_default(wc[0], gn, "escape_name")
+    unm = _kw_or_default(rc[0], mt, "underscore_unmunge")
+    chk.decide(esc == unm and esc in ("True", "False"), "R09.4", key(tm, "TreeNode.to_rich_dict", "munging matches the reader"), tm.loc(wc[0]), f"writer escape_name={esc}, reader underscore_unmunge={unm}", f"to_rich_dict writes its newick with escape_name={esc} (blanks {'are' if esc == 'True' else 'are not'} turned into underscores) but deserialise_tree reads it with underscore_unmunge={unm}: names containing a blank come back changed, and their edge attributes (keyed by name) are lost")
+    chk.decide(esc == "True", "R09.4", key(tm, "TreeNode.to_rich_dict", "names with newick punctuation are quoted"), tm.loc(wc[0]), "names are escaped/quoted in the JSON newick", "to_rich_dict writes node names unescaped (escape_name=False): a name containing '(' ',' ':' ';' or a quote makes the stored newick unparsable, so the JSON of such a tree cannot be loaded")
+    chk.floor("R09.4", 2, "two protocol obligations")
+
+
+def r09_5(chk):
+    chk.rule("R09.5", "TreeBuilder._unique_name: a name it modifies (counter appended) is checked again against the names in use before it is handed out (recursive call or membership loop) -- otherwise a generated name can equal a loaded one and name lookups hit the wrong node")
+    from ..cfg import build, own_exprs
+
+    m = chk.repo.module(TREE)
+    fn = m.func("TreeBuilder._unique_name")
+    g = build(fn)
+    p = [x for x in params_of(fn) if x != "self"][0]
+
+    def modifies(n):
+        a = n.ast
+        if n.kind != "stmt":
+            return False
+        if isinstance(a, ast.AugAssign) and norm(a.target) == p:
+            return True
+        if isinstance(a, ast.Assign) and norm(a.targets[0]) == p and not isinstance(a.value, ast.Constant) and any(isinstance(x, ast.Name) and x.id == p for x in ast.walk(a.value)) and not (isinstance(a.value, ast.Call) and norm(a.value.func) == "self._unique_name"):
+            return True
+        return False
+
+    mods = [n for n in g.nodes if modifies(n)]
+    rechecks = g.nodes_containing(lambda x: isinstance(x, ast.Call) and norm(x.func) == "self._unique_name")
+    rechecks += [n for n in g.nodes if n.kind == "loop" and isinstance(n.ast, ast.While) and f"{p} in self._used_names" in norm(n.ast.test)]
+    if not mods:
+        chk.unresolved("R09.5", key(m, "TreeBuilder._unique_name", "re-check"), m.loc(fn), "no modification of the name found")
+        return
+    for n in mods:
+        ok, path = g.always_followed_by(n, rechecks, exceptional=False)
+        chk.decide(ok, "R09.5", key(m, "TreeBuilder._unique_name", f"re-check after `{norm(n.ast)}`"), m.loc(n.ast), "the modified name is checked again before being returned", f"`{norm(n.ast)}` makes a new name that is returned without being checked against the names already in use")
+    chk.floor("R09.5", 1, "one modification site")
+
+
 def run(chk):
     r09_1(chk)
     r09_2(chk)
+    r09_4(chk)
+    r09_5(chk)
     chk.assume("tree effect facts: node constructors and append/extend/insert adopt their children (re-parenting them); `x.parent = y` mutates x, x's old parent and y (derived from the setter); TreeBuilder.edge_from_edge keeps the template's params dict iff _params_for_edge returns edge.params")
     chk.assume("calls whose receiver kind is unknown and whose name is not a tree method are unresolved: no effect assumed, no violation reported through them")
